@@ -1,5 +1,6 @@
+import os, random
 from ..runner import Prop
-from .. import bbigen
+from .. import bbigen, core
 from ..core import parse_sx, sx
 
 def _pfx(a, b):
@@ -61,13 +62,30 @@ class C14(Prop):
             inp = []
         return [kind, o, sizes, inp, qs], "bad-%s-%s" % (how, where)
 
+    def spill_case(self, rng):
+        """several chromosomes whose data together exceed the BufWriter capacity: the destination's buffer
+        spills while a per-chromosome buffer is being emptied (the situation of D5b)"""
+        nchrom = rng.choice([2, 3, 4])
+        names = sorted(rng.sample(bbigen.NAMES[:9], nchrom), key=lambda x: x.encode())
+        per = rng.choice([250, 300, 400, 700])
+        ips = rng.choice([64, 1024])
+        sizes = []; inp = []; qs = []
+        for nm in names:
+            n = per + rng.randint(0, 40)
+            for i in range(n):
+                inp.append([nm, i * 10, i * 10 + rng.choice([3, 5, 10]), bbigen.f32bits(rng.choice([1.0, 2.0, 0.5]))])
+            sizes.append([nm, n * 10 + 5]); qs.append([0, nm, 0, n * 10 + 5]); qs.append([0, nm, 15, 95])
+        qs += [[4], [3]]
+        manual = rng.choice([[[]], [[100]], [[50, 1000]]])
+        o = [0, ips, rng.choice([4, 256]), 160, 10, manual, 1]
+        return [rng.choice([0, 0, 1]), o, sizes, inp, qs]
+
     def gen(self, rng, tier):
-        n = 90 if tier == "quick" else 1500
+        n = 120 if tier == "quick" else 1500
         for i in range(n):
             txt, tags = bbigen.bw_case(rng, tier, fmode="nice", extra_queries=True,
                                        compress=(1 if i % 9 == 8 else 0))
             c = parse_sx(txt)
-            # names come back as byte lists; keep them as they are
             qs = c[4][:40]
             c = [c[0], c[1], c[2], c[3], qs]
             if i % 4 == 3:
@@ -76,6 +94,11 @@ class C14(Prop):
             c.append([threads, inmem, 0])
             tags += ["threads=%d" % threads, "inmemory=%d" % inmem]
             yield sx(c), tags
+        for i in range(8 if tier == "quick" else 120):
+            c = self.spill_case(rng)
+            threads = rng.choice([2, 0, 4, 8]); inmem = rng.choice([0, 1])
+            c.append([threads, inmem, 0])
+            yield sx(c), ["spill", "pass=%d" % (c[0] + 1), "chroms=%d" % len(c[2]), "threads=%d" % threads, "inmemory=%d" % inmem]
 
     def nontrivial(self, case, tags):
         return not any(t.startswith("bad-") for t in tags) and case.count("(") > 14
@@ -101,5 +124,50 @@ class C14(Prop):
         if m[1]:
             return i[1] == m[3] and i[3] == m[5] and i[5] == m[6]
         return True
+
+    def extra_checks(self, ctx):
+        """thorough tier: the same cases through a harness built WITHOUT debug assertions (cargo release
+        profile): D12 was a difference between the two profiles; after its repair the recorded traces
+        must be identical, and the release traces must satisfy the oracle and match the model too"""
+        res = []
+        if ctx["tier"] != "thorough":
+            return res
+        rc, out = core.sh(["timeout", "1500", "cargo", "build", "--offline", "--release", "--bin", "c14"],
+                          cwd=core.HARNESS_DIR, timeout=1600)
+        if rc != 0:
+            return [("nofail", "release build of the harness failed", {"property": self.ID, "kind": "build", "detail": out[-1500:]})]
+        rel = os.path.join(core.TARGET, "release", "c14")
+        rng = random.Random(ctx["seed"])
+        cases = [c for c, _ in self.gen(rng, "quick")]
+        dbg = core.run_impl(self.ID, cases, per_case_timeout=self.PER_CASE_TIMEOUT)
+        relo = core.run_sharded([rel], cases, per_case_timeout=self.PER_CASE_TIMEOUT)
+        model = core.run_model(self.ID, self.MODEL_ENTRY, cases)
+        orc = core.run_model(self.ID, self.ORACLE_ENTRY, ["(%s %s)" % (c, o) for c, o in zip(cases, relo)])
+        n_exact = 0; n_diff = 0
+        for c, d, r, m, v in zip(cases, dbg, relo, model, orc):
+            if v.strip() != "1":
+                res.append(("violation", "release profile", {"property": self.ID, "kind": "failing-input", "profile": "release (debug assertions off)",
+                                                             "case": c, "observed_impl": r[:4000]}))
+                continue
+            if not self.same(c, r, m):
+                res.append(("nofail", "release profile", {"property": self.ID, "kind": "correspondence-broken", "profile": "release",
+                                                          "case": c, "observed_impl": r[:4000], "model": m[:4000]}))
+                continue
+            try:
+                pm = parse_sx(m); pd = parse_sx(d); pr = parse_sx(r)
+            except Exception:
+                continue
+            if pm[1] and pm[2]:
+                n_exact += 1
+                if pd[1] != pr[1]:
+                    n_diff += 1
+                    res.append(("nofail", "profiles differ", {"property": self.ID, "kind": "correspondence-broken",
+                                                              "what": "dev and release traces differ", "case": c,
+                                                              "dev": d[:3000], "release": r[:3000]}))
+            if len(res) > 5:
+                break
+        res.append(("stat", "release_profile_cases", len(cases)))
+        res.append(("stat", "release_profile_exact_traces_equal_to_dev", n_exact - n_diff))
+        return res
 
 PROP = C14()
